@@ -670,7 +670,11 @@ pub trait DnsRecordExt: fmt::Debug {
     /// Returns true if another record has matched content,
     /// and if its TTL is at least half of this record's.
     fn suppressed_by_answer(&self, other: &dyn DnsRecordExt) -> bool {
-        self.matches(other) && (other.get_record().ttl > self.get_record().ttl / 2)
+        // The cache-flush bit is not part of the identity of a record, and
+        // RFC 6762 section 10.2 requires queriers to clear it in known answers.
+        let mut other = other.clone_box();
+        other.get_record_mut().entry.cache_flush = self.get_record().entry.cache_flush;
+        self.matches(other.as_ref()) && (other.get_record().ttl > self.get_record().ttl / 2)
     }
 
     /// Required by RFC 6762 Section 7.1: Known-Answer Suppression.
